@@ -228,7 +228,7 @@ class History(Facet):
     shards = {"quick": 8, "thorough": 16}
 
     def strategy(self, tier):
-        return histories("coded", max_steps=5 if tier == "quick" else 6, max_dims=4)
+        return histories("coded", max_steps=5 if tier == "quick" else 6, max_dims=4, max_len=5)
 
     def run(self, desc):
         return run_history(desc)
